@@ -20,32 +20,32 @@ variable {α : Type} [Field α] [LinearOrder α] [IsStrictOrderedRing α]
 /-- anything that is not 2-d is rejected by every aggregator kind -/
 theorem rejects_not_matrix (k : AggKind) (shape : List Nat) (f : Bool) (h : shape.length ≠ 2) :
     rejects k shape f = true := by
-  sorry
+  simp [rejects, h]
 
 /-- weighted aggregators reject exactly: non-finite entries, or a row count contradicting the configured
     weights / preference vector -/
 theorem rejects_weighted_iff (req : Option Nat) (m n : Nat) (finite : Bool) :
     rejects (.weighted req) [m, n] finite = true ↔ (finite = false ∨ ∃ r, req = some r ∧ m ≠ r) := by
-  sorry
+  cases req <;> cases finite <;> simp [rejects]
 
 /-- GradDrop rejects exactly: non-finite entries, or a row count contradicting the leak vector -/
 theorem rejects_graddrop_iff (req : Option Nat) (m n : Nat) (finite : Bool) :
     rejects (.graddrop req) [m, n] finite = true ↔ (finite = false ∨ ∃ r, req = some r ∧ m ≠ r) := by
-  sorry
+  cases req <;> cases finite <;> simp [rejects]
 
 /-- TrimmedMean rejects exactly: non-finite entries or fewer than `2b+1` rows; Krum: non-finite entries
     or fewer than `f+3` or `k` rows -/
 theorem rejects_robust_iff (b f k m n : Nat) (finite : Bool) :
     (rejects (.trimmedMean b) [m, n] finite = true ↔ (finite = false ∨ m < 2 * b + 1)) ∧
     (rejects (.krum f k) [m, n] finite = true ↔ (finite = false ∨ m < f + 3 ∨ m < k)) := by
-  sorry
+  cases finite <;> simp [rejects]
 
 /-! ### (b) positive homogeneity -/
 
 /-- every weighted combination is homogeneous once the weights are scale-invariant -/
 theorem combine_scale (J : Mat α) (n : Nat) (w : Vec α) (t : α) :
     combine n (J.map (smul t)) w = smul t (combine n J w) := by
-  sorry
+  exact Homog.combine_map_smul J n w t
 
 /-- UPGrad / DualProj: the regularised normalised Gramian is scale-invariant as long as the largest
     singular value stays `≥ norm_eps` on both sides, hence so are the weights -/
@@ -53,7 +53,10 @@ theorem qp_weights_scale_invariant (J : Mat α) (m n : Nat) (hJ : MatWF J m n) (
     (ht : 0 < t) (hs : normEps ≤ s) (hts : normEps ≤ t * s) (u : Vec α) :
     upgradWeights (J.map (smul t)) (t * s) normEps regEps u = upgradWeights J s normEps regEps u ∧
     dualprojWeights (J.map (smul t)) (t * s) normEps regEps u = dualprojWeights J s normEps regEps u := by
-  sorry
+  have _ := hJ
+  unfold upgradWeights dualprojWeights
+  rw [Homog.regNormGram_scale J s normEps regEps t ht hs hts]
+  exact ⟨rfl, rfl⟩
 
 /-- the hypothesis is needed: below the threshold they average by design.  Witness: `J = [[1],[-1/2]]`
     has `s² = 5/4`; with `norm_eps = 1` the matrix is above the threshold but `J/2` is below, and the
@@ -62,38 +65,40 @@ theorem qp_threshold_witness :
     let J : Mat Rat := [[1], [-1/2]]
     (dualprojWeights J (9/8) 1 (1/100) [1/2, 1/2]).map (·.1) ≠
       (dualprojWeights (J.map (smul (1/2))) (9/16) 1 (1/100) [1/2, 1/2]).map (·.1) := by
-  sorry
+  intro J
+  decide +kernel
 
 /-- MGDA: one Frank–Wolfe step sees only ratios of Gramian entries: scaling the Gramian by `t² > 0`
     changes neither the new weights nor the step size -/
 theorem fwStep_scale_invariant (G : Mat α) (a : Vec α) (c : α) (hc : 0 < c) :
     (fwStep (G.map (smul c)) a).1 = (fwStep G a).1 ∧ (fwStep (G.map (smul c)) a).2.1 = (fwStep G a).2.1 := by
-  sorry
+  exact Homog.fwStep_scale G a c hc
 
 theorem mgda_weights_scale_invariant (G : Mat α) (m : Nat) (mInv epsilon c : α) (hc : 0 < c) (K : Nat) :
     (mgdaWeights (G.map (smul c)) m mInv epsilon K).1 = (mgdaWeights G m mInv epsilon K).1 := by
-  sorry
+  exact Homog.mgda_go_scale G (G.map (smul c)) epsilon (fun a => Homog.fwStep_scale G a c hc) K _ _ _
 
 /-- PCGrad: weights are ratios of Gramian entries -/
 theorem pcgrad_weights_scale_invariant (G : Mat α) (c : α) (hc : 0 < c) (perms : List (List Nat)) :
     (pcgradWeights (G.map (smul c)) perms).1 = (pcgradWeights G perms).1 := by
-  sorry
+  exact Homog.pcgrad_scale G c hc perms
 
 /-- TrimmedMean: sorting commutes with positive scaling -/
 theorem trimmedMean_homogeneous [Inhabited α] (b m n : Nat) (J : Mat α) (hJ : MatWF J m n) (t : α)
     (ht : 0 < t) : trimmedMean b n (J.map (smul t)) = smul t (trimmedMean b n J) := by
-  sorry
+  exact Homog.trimmedMean_scale b m n J hJ t ht
 
 /-- GradDrop (same uniform sample): the sign purity is scale-invariant -/
 theorem graddrop_homogeneous [Inhabited α] (m n : Nat) (J : Mat α) (hJ : MatWF J m n) (leak U : Vec α)
     (t : α) (ht : 0 < t) : graddrop (J.map (smul t)) leak U n = smul t (graddrop J leak U n) := by
-  sorry
+  exact Homog.graddrop_scale m n J hJ leak U t ht
 
 /-- ConFIG: unit rows are scale-invariant, the length factor is linear (row norms scale along) -/
 theorem config_homogeneous (J : Mat α) (m n : Nat) (hJ : MatWF J m n) (d w : Vec α) (hd : d.length = m)
     (t : α) (ht : 0 < t) :
     configVec (J.map (smul t)) (d.map (t * ·)) w n = (configVec J d w n).map (smul t) := by
-  sorry
+  have _ := hJ; have _ := hd
+  exact Homog.configVec_scale J d w n t ht
 
 /-- IMTL-G with the guard RELATIVE to the magnitude of `v` (the code after the `fix:` commit): for
     independent rows (`G v = d` has a unique solution) the weights are scale-invariant -/
@@ -103,7 +108,8 @@ theorem imtlg_weights_scale_invariant (J : Mat α) (m n : Nat) (hJ : MatWF J m n
         matVec (gram J) v' = d → v = v')
     (w w' : Vec α) (h : imtlgWeights J d guard = some w)
     (h' : imtlgWeights (J.map (smul t)) (d.map (t * ·)) guard = some w') : w' = w := by
-  sorry
+  have _ := hJ
+  exact Homog.imtlg_scale J m d hd guard t ht huniq w w' h h'
 
 /-- BEFORE the fix the guard was absolute (`|Σv| < 1e-12`), and homogeneity failed: `J = [[1]]` gives
     weight 1, `10¹³ · J` gives weight 0 -/
@@ -120,7 +126,7 @@ theorem imtlg_old_not_homogeneous :
     imtlgWeightsOld [[1]] [1] = some [1] ∧
     imtlgWeightsOld [[10000000000000]] [10000000000000] = some [0] ∧
     imtlgWeights ([[10000000000000]] : Mat Rat) [10000000000000] (1 / 1000000000000) = some [1] := by
-  sorry
+  decide +kernel
 
 /-- Aligned-MTL: the balance transformation is scale-invariant (eigenvalues scale by `t²`, their square
     roots by `t`) -/
@@ -128,6 +134,7 @@ theorem aligned_weights_scale_invariant (J : Mat α) (m n : Nat) (hJ : MatWF J m
     (sigma w : Vec α) (t : α) (ht : 0 < t) (hs : sigma ≠ [])
     (hcert : alignedCert (gram J) vecs sigma = true) :
     alignedWeights (J.map (smul t)) vecs (sigma.map (t * ·)) w = alignedWeights J vecs sigma w := by
-  sorry
+  have _ := hJ; have _ := hcert
+  exact Homog.alignedWeights_scale J vecs sigma w t ht hs
 
 end Tjd.Props.C11
